@@ -46,10 +46,11 @@ def main():
     fails_with = "test result: FAILED" in o1 or "error: test failed" in o1
     meta["ran"].append({"cmd": "demo with change", "fails": fails_with, "tail": o1[-400:]})
     # 1c. demo passes without change
-    sh("git stash push -- fixed-buffer/src fixed-buffer-tokio/src", cwd=wt)
+    # (no `git stash`: the stash is shared by all worktrees of a repository)
+    sh("git checkout -- fixed-buffer/src fixed-buffer-tokio/src fixed-buffer/Cargo.toml fixed-buffer-tokio/Cargo.toml", cwd=wt)
     rc2, o2 = sh("cargo test --offline%s -p %s --test %s 2>&1 | tail -5" % (rel, crate, demo_name), cwd=wt)
     passes_without = "test result: ok" in o2
-    sh("git stash pop", cwd=wt)
+    sh("git apply %s" % os.path.join(out, "patch.diff"), cwd=wt)
     meta["ran"].append({"cmd": "demo without change", "passes": passes_without, "tail": o2[-400:]})
     meta["confirmed"] = bool(suite_ok and fails_with and passes_without)
     # 2. run the checks against /repo with the patch applied
